@@ -313,6 +313,30 @@ pub fn gen_ownership(rng: &mut Rng, tier: &Tier) -> Vec<Case> {
             cases.push(c);
         }
     }
+    // the deques of max / min with a clock about to run out (the public state re-injected with all time stamps shifted
+    // towards `usize::MAX`): the rebase happens within the next few samples, over owned samples
+    for kind in ["max", "min"] {
+        let mut dq: Vec<Case> = Vec::new();
+        crate::gen::deque_inject_cases(rng, tier, kind, &mut dq);
+        for c in dq {
+            if !c[0].starts_with("inject ") || !rng.chance(1, 3) {
+                continue;
+            }
+            let mut v = vec![format!("{} T=tracked", c[0]), "live".to_string()];
+            for l in c.iter().skip(1).filter(|l| l.starts_with("f ")) {
+                v.push(l.clone());
+                v.push("live".into());
+                if rng.chance(1, 8) {
+                    v.push("gutsrt 1 2".into());
+                    v.push("drop 2".into());
+                    v.push("live".into());
+                }
+            }
+            v.push("drop 1".into());
+            v.push("live".into());
+            cases.push(v);
+        }
+    }
     // a sample type whose operations can fail (an ordered float that rejects NaN, a heap-backed number whose `clone`
     // cannot allocate, checked arithmetic): the k-th comparison / clone / arithmetic operation of one `filter` call
     // panics, the call is abandoned half-way, and whatever state the unwinding leaves must still own every sample
@@ -401,6 +425,19 @@ pub fn gen_ownership_small(rng: &mut Rng) -> Vec<Case> {
             c.push("drop 3".into());
             c.push("live".into());
             cases.push(c);
+        }
+        // the clock of a deque runs out over owned samples
+        if kind == "max" || kind == "min" {
+            let taps = if kind == "max" { "5:18446744073709551613,2:18446744073709551614" } else { "2:18446744073709551613,5:18446744073709551614" };
+            cases.push(vec![
+                format!("inject 1 {} N=3 time=18446744073709551615 taps={} hist={} T=tracked", kind, taps, if kind == "max" { "5,2" } else { "2,5" }),
+                "f 1 3".into(),
+                "f 1 7".into(),
+                "f 1 -7".into(),
+                "live".into(),
+                "drop 1".into(),
+                "live".into(),
+            ]);
         }
         // a call abandoned by a panicking operation of the sample type, at every position
         {
